@@ -38,7 +38,7 @@ def run(ck):
         runs.append(('all default', dict(b)))
         a = dict(b); a.update({'f:' + k: v for k, v in OFF.items()}); runs.append(('every switch off', a))
         for k, v in OFF.items():
-            if ck.tier == 'thorough' or k in ('disable_dlf_flag', 'palette_level', 'obmc_level', 'enable_restoration_filtering', 'cdef_level', 'filter_intra_level', 'intrabc_mode'):
+            if ck.tier == 'thorough' or k in ('disable_dlf_flag', 'palette_level', 'obmc_level', 'enable_restoration_filtering', 'cdef_level', 'filter_intra_level', 'intrabc_mode', 'disable_cfl_flag'):
                 a = dict(b); a['f:' + k] = v; runs.append((k + ' off', a))
     # loop filter off x tiles (the loop filter of multi-tile pictures runs in another stage), tile layouts x sizes
     for tc, tr in [(1, 0), (0, 1), (1, 1), (2, 1)]:
